@@ -9,7 +9,8 @@
      ffcdh_key, ECDHKey = ecdh_key, KDFParameters = its hash_name); a dataclass constructor is the record constructor;
    - uuid.UUID is its bytes_le (model convention);
    - other functions of the library are the MODEL functions: compute_kdf_context, compute_l2_key (Model/Chain.v),
-     compute_kek, compute_kek_from_public_key, compute_public_key (Model/Kek.v), FFCDHKey.unpack/.pack, ECDHKey.unpack/.pack,
+     compute_kek, compute_kek_from_public_key, compute_public_key (Model/Kek.v), FFCDHKey.unpack/.pack, FFCDHParameters.unpack,
+     ECDHKey.unpack/.pack,
      ECDHKey.curve_and_hash, KDFParameters.unpack/.hash_algorithm (Model/Gkdi.v), the properties
      GroupKeyEnvelope.is_public_key / KeyIdentifier.is_public_key (gke_is_public_key, kid_is_public_key);
    - primitives outside the library are the model's abstraction of them:
@@ -51,6 +52,7 @@ Inductive obj :=
 | OKid (k : key_identifier)                    (* KeyIdentifier *)
 | OKdfp (hash_name : pystr)                    (* KDFParameters *)
 | OFfk (k : ffcdh_key)                         (* FFCDHKey *)
+| OFfp (p : ffcdh_params)                      (* FFCDHParameters *)
 | OEck (k : ecdh_key)                          (* ECDHKey *)
 | OEcNumbers (cv : curve) (x y : Z)            (* ec.EllipticCurvePublicNumbers *)
 | OEcPub (cv : curve) (x y : Z)                (* ec.EllipticCurvePublicKey *)
@@ -109,6 +111,11 @@ Definition keys_attr (a : string) (v : pv obj) : option (res (pv obj)) :=
     else if String.eqb a "generator" then Some (Ok (VI (ffk_generator k)))
     else if String.eqb a "public_key" then Some (Ok (VI (ffk_public_key k)))
     else None
+  | VO (OFfp p) =>
+    if String.eqb a "key_length" then Some (Ok (VI (ffp_key_length p)))
+    else if String.eqb a "field_order" then Some (Ok (VI (ffp_field_order p)))
+    else if String.eqb a "generator" then Some (Ok (VI (ffp_generator p)))
+    else None
   | VO (OEck k) =>
     if String.eqb a "curve_and_hash" then
       Some (let* (cv, h) := curve_and_hash k in Ok (VT [VO (OCurve cv); VO (OHash h)]))
@@ -164,6 +171,8 @@ Definition keys_call (f : string) (args : list (pv obj)) : option (res (pv obj))
     match args with [VB b] => Some (let* n := KDFParameters_unpack b in Ok (VO (OKdfp n))) | _ => None end
   else if String.eqb f "FFCDHKey.unpack" then
     match args with [VB b] => Some (let* k := FFCDHKey_unpack b in Ok (VO (OFfk k))) | _ => None end
+  else if String.eqb f "FFCDHParameters.unpack" then
+    match args with [VB b] => Some (let* p := FFCDHParameters_unpack b in Ok (VO (OFfp p))) | _ => None end
   else if String.eqb f "FFCDHKey" then
     match args with
     | [VI kl; VI fo; VI g; VI pk] =>
